@@ -406,6 +406,9 @@ func finishTmo(tc tmoCase, be *RecBackend, s *smtp.Server, lg *logWriter, client
 		cs.Add(Num(int64(c)))
 	}
 	ex = append(ex, L(A("expect-codes"), cs))
+	if tc.cfg.LMTP {
+		ex = append(ex, L(A("for"), A("C13"), L(A("expect-codes"), cs)))
+	}
 	ex = append(ex, tc.extra...)
 	transport := "tcp"
 	if tc.pipe {
